@@ -131,7 +131,7 @@ def reference_digest(data):
 # Configuration and workload generation (all from one PRNG, before execution starts)
 # ---------------------------------------------------------------------------------------
 
-FAMILIES = ('sched', 'crash', 'oserr')
+FAMILIES = ('sched', 'crash', 'oserr', 'midmod')
 
 
 def gen_config(rng, family, thorough):
@@ -177,7 +177,7 @@ def gen_workload(rng, cfg, thorough):
                     env.append(['touch', key])
                 elif r < 0.66:
                     files = sorted(rng.sample(range(len(LIBFILES) + 1), rng.randint(1, 3)))
-                    env.append(['upgrade', rng.choice(['mtime', 'mtime', 'add', 'remove']), files])
+                    env.append(['upgrade', rng.choice(['mtime', 'mtime', 'add', 'remove', 'older']), files])
                 elif r < 0.88:
                     kind = rng.choice(['truncate', 'truncate', 'zeros', 'ff', 'text', 'empty'])
                     env.append(['damage', key, kind, rng.random()])
@@ -195,16 +195,25 @@ def gen_workload(rng, cfg, thorough):
             for _ in range(nops):
                 key = focus if rng.random() < 0.75 else rng.choice(SRC_KEYS)
                 r = rng.random()
-                if r < 0.60:
+                # every write goes through the real call site (_parse_include = load, else parse
+                # and store); a bare store() by the harness would not follow whatever protocol
+                # the call site and the store share (e.g. which time stamp an entry gets)
+                if r < 0.75:
                     ops.append(['parse_include', key])
-                elif r < 0.78:
-                    ops.append(['load', key])
                 elif r < 0.93:
-                    ops.append(['store', key])
+                    ops.append(['load', key])
                 else:
                     ops.append(['newstore'])
             procs.append(ops)
-        epochs.append({'env': env, 'procs': procs})
+        ep = {'env': env, 'procs': procs}
+        if cfg['family'] == 'midmod':
+            # source modifications that happen WHILE scanner processes run (between two of
+            # their system calls), e.g. a dependency being re-installed during a build
+            # (always by atomic replacement: an in-place rewrite under a reader tears the read
+            # itself, cache or no cache, which is not something C18 can promise anything about)
+            ep['mid'] = [['rewrite', focus if rng.random() < 0.8 else rng.choice(SRC_KEYS), 'replace']
+                         for _ in range(rng.choice([1, 1, 2]))]
+        epochs.append(ep)
     return epochs
 
 
@@ -250,6 +259,13 @@ class RandomDecider(object):
         slots = [p.slot for p in runnable]
         st = cfg['strategy']
         self.step += 1
+        if self.sim.pending_mid:
+            # bias: right after a process has read the source (its parse is now of the old
+            # version) and before its store; otherwise a small chance at every step
+            hot = any(p.pending[0] in ('open', 'stat', 'write', 'rename') and classify(p.pending[1], self.sim.cachedir) in ('tmp', 'entry')
+                      for p in runnable)
+            if rng.random() < (0.25 if hot else 0.02):
+                return -1, Directive('env')
         if st == 'uniform' or len(slots) == 1:
             slot = rng.choice(slots)
         elif st == 'pct':
@@ -319,6 +335,11 @@ class ReplayDecider(object):
         while self.i < len(self.cur_list):
             d = self.cur_list[self.i]
             self.i += 1
+            if d[0] == 'env':
+                if world.env_hook is not None and world.env_pending():
+                    return -1, Directive('env')
+                self.inapplicable += 1
+                continue
             slot = d[1] + self.base
             if slot not in slots:
                 self.inapplicable += 1
@@ -386,6 +407,10 @@ class CacheSim(object):
         self._last_slot = None
         self.libfiles = list(LIBFILES)
         self.epoch_decisions = []
+        self.pending_mid = []
+        self.version_log = {}          # key -> [(seq from which it is current, version), ...]
+        self.world.env_hook = self._fire_mid
+        self.world.env_pending = lambda: bool(self.pending_mid)
 
     # -- clock: every mutating call gets its own, later, timestamp ----------------------
     def _delta(self):
@@ -455,6 +480,7 @@ class CacheSim(object):
                     node.mtime_ns = t2
         node.tag['src'] = (key, k)
         self.cur_version[key] = k
+        self.version_log.setdefault(key, []).append((self.world.seq + 1, k))
         self.version_digest[(key, k)] = reference_digest(data)
         self.world.record(-1, 'ENV:rewrite:' + mode, SOURCES[key], node.ino, 'v%d' % k, len(data))
 
@@ -462,6 +488,20 @@ class CacheSim(object):
         d = self.fs.lookup(LIBDIR)
         return tuple((n, self.fs.inodes[i].mtime_ns) for n, i in d.entries.items() if n.endswith('.py')) + \
             (self.fs.lookup(ARGV0).mtime_ns,)
+
+    def _fire_mid(self):
+        ev = self.pending_mid.pop(0)
+        self.probe('source_modified_while_processes_run')
+        self.apply_env(ev)
+
+    def versions_current_during(self, key, begin_seq, end_seq):
+        log = self.version_log[key]
+        out = []
+        for i, (seq, k) in enumerate(log):
+            nxt = log[i + 1][0] if i + 1 < len(log) else None
+            if seq <= end_seq and (nxt is None or nxt > begin_seq):
+                out.append(k)
+        return out
 
     def entry_path(self, key):
         return self.cachedir + '/' + hashlib.sha1(SOURCES[key].encode('utf-8')).hexdigest()
@@ -493,7 +533,12 @@ class CacheSim(object):
                     fs.tick(self._delta())
                     node = fs.lookup(t)
                     if node is not None:
-                        node.mtime_ns = fs.stamp()
+                        if how == 'older':
+                            # a module replaced by a build that is older than what was installed
+                            # (downgrade, or a package whose files keep their build-time stamps)
+                            node.mtime_ns = node.mtime_ns - 1 - (self.world.seq % 7) * 1_000_000
+                        else:
+                            node.mtime_ns = fs.stamp()
             # an upgrade must be a real change: if add/remove happened to restore an earlier
             # state of the scanner installation, bump argv[0] as well
             state = self._lib_state()
@@ -625,7 +670,8 @@ class CacheSim(object):
         if kind in ('load', 'parse_include'):
             key = op[1]
             cur = self.cur_version[key]
-            want = self.version_digest[(key, cur)]
+            allowed = self.versions_current_during(key, rec['begin_seq'], rec['end_seq'])
+            wants = [self.version_digest[(key, k)] for k in allowed]
             evs = self._events_of(rec)
             entry = self.entry_path(key)
             opened = [ev for ev in evs if ev[2] == p.slot and ev[3] == 'open' and ev[4] == entry and ev[6] == 'ro']
@@ -648,15 +694,19 @@ class CacheSim(object):
                 n = self.fs.lookup(entry)
                 if n is None or n.ino != ino:
                     self.probe('load_opened_then_replaced')
-            if got != want:
+            if got not in wants:
                 known = [k for (kk, k), d in self.version_digest.items() if kk == key and d == got]
                 prov = None
+                how = rec['result']
                 if opened:
                     prov = self.fs.inodes[opened[0][5]].tag.get('sv')
-                self.violate('O1', 'O1@%s:%s' % (kind, rec['result']), {
+                    if rec['result'] == 'hit':
+                        how = 'hit:' + self._explain_stale_hit(p, rec, opened[0], evs)
+                self.violate('O1', 'O1@%s:%s' % (kind, how), {
                     'op': op, 'slot': p.slot, 'epoch': rec['epoch'],
                     'returned_version': known[0] if known else 'no version of this file (%s)' % got,
-                    'current_version': cur, 'from': rec['result'], 'entry_writer_scanner_version': prov})
+                    'current_version': cur, 'versions_current_during_the_load': allowed,
+                    'from': rec['result'], 'entry_writer_scanner_version': prov})
             elif rec['result'] == 'hit' and opened:
                 # O3 (reader side): data written under another scanner version must not be served
                 node = self.fs.inodes[opened[0][5]]
@@ -688,6 +738,32 @@ class CacheSim(object):
         else:
             rec['result'] = 'ok'
 
+    def _explain_stale_hit(self, p, rec, opened_ev, evs):
+        """Names the window through which a stale entry was served, for the violation signature."""
+        ino = opened_ev[5]
+        entry = opened_ev[4]
+        # in-place (cross-device) copies of this inode by other processes: [open(creat|trunc), utime]
+        check = [ev for ev in evs if ev[2] == p.slot and ev[3] in ('fstat', 'stat') and ev[5] == ino]
+        if check:
+            c = check[0][0]
+            copies = {}
+            for ev in self.world.log:
+                if ev[5] == ino and ev[2] != p.slot and ev[2] >= 0 and ev[4] == entry:
+                    if ev[3] == 'open' and ev[6] in ('creat', 'trunc'):
+                        copies.setdefault(ev[2], [ev[0], None])
+                    elif ev[3] == 'utime' and ev[2] in copies and copies[ev[2]][1] is None:
+                        copies[ev[2]][1] = ev[0]
+            for w, (a, u) in copies.items():
+                if a < c and (u is None or c < u):
+                    # written in place by a cross-device move; validated while it still carried
+                    # the time of the copy instead of the time stamp its writer was about to give it
+                    return 'entry-validated-between-cross-device-copy-and-copystat'
+        renamed = [ev for ev in self.world.log if ev[3] == 'rename' and ev[4] == entry and ev[0] > opened_ev[0]
+                   and ev[0] < rec['end_seq']]
+        if renamed:
+            return 'entry-replaced-during-load'
+        return 'entry-looked-fresh'
+
     def _check_registry(self, p, rec, parser):
         """O6: what _parse_include registers with the transformer is the cache-less parse."""
         T = p.transformer
@@ -704,7 +780,9 @@ class CacheSim(object):
                 got = parser_digest(holder)
                 # Base is parsed once per Transformer; it must equal some version current
                 # since this process started (sources only change at quiescent points)
-                if got != self.version_digest[('BASE', self.cur_version['BASE'])]:
+                first_seq = min(r['begin_seq'] for r in self.ops if r['slot'] == p.slot)
+                ok_versions = self.versions_current_during('BASE', first_seq, rec['end_seq'])
+                if got not in [self.version_digest[('BASE', k)] for k in ok_versions]:
                     self.violate('O1', 'O1@parse_include:nested-include', {
                         'op': rec['op'], 'include': 'Base', 'current_version': self.cur_version['BASE']})
 
@@ -777,10 +855,6 @@ class CacheSim(object):
                         val = T._parse_include(SOURCES[op[1]])
                     elif kind == 'load':
                         val = T._cachestore.load(SOURCES[op[1]])
-                    elif kind == 'store':
-                        parser = GIRParser(types_only=True)
-                        parser.parse(SOURCES[op[1]])
-                        val = T._cachestore.store(SOURCES[op[1]], parser)
                     elif kind == 'newstore':
                         val = gtrans.CacheStore()
                         T._cachestore = val
@@ -841,6 +915,7 @@ class CacheSim(object):
                     # the closing probe process runs on a healthy machine
                     self.fs.dev_free.clear()
                     self.decider = ProbeDecider()
+                self.pending_mid = list(ep.get('mid', []))
                 base = len(self.world.procs)
                 dstart = len(self.world.decisions)
                 self.decider.new_epoch(ei, base)
@@ -851,7 +926,11 @@ class CacheSim(object):
                     self.world.run_until_quiescent(self.decider, step_cap=200000 if self.thorough else 60000)
                 finally:
                     if not ep.get('probe'):
-                        self.epoch_decisions.append([[d[0], d[1] - base] + d[2:] for d in self.world.decisions[dstart:]])
+                        self.epoch_decisions.append([[d[0], d[1] - base if d[1] >= 0 else -1] + d[2:]
+                                                     for d in self.world.decisions[dstart:]])
+                    # modifications that no decision fired still happen before the next epoch
+                    while self.pending_mid:
+                        self.apply_env(self.pending_mid.pop(0))
                 for p in self.world.procs[base:]:
                     if p.outcome is None:
                         raise HarnessError('process %d has no outcome' % p.slot)
@@ -889,7 +968,13 @@ class ProbeDecider(object):
 
 def family_of(index):
     r = index % 10
-    return 'sched' if r < 4 else ('crash' if r < 8 else 'oserr')
+    if r < 4:
+        return 'sched'
+    if r < 7:
+        return 'crash'
+    if r < 9:
+        return 'oserr'
+    return 'midmod'
 
 
 def make_spec(root_seed, index, thorough):
